@@ -214,6 +214,17 @@ func (a *Activation) enterLoop(st *State, li *loopInfo) {
 				}
 				continue
 			}
+			if s == "$heaps" {
+				saved := map[string]Term{}
+				for k, v := range st.ghosts {
+					saved[k] = v
+				}
+				g.havocAllHeaps(st)
+				for k, v := range saved {
+					st.ghosts[k] = v
+				}
+				continue
+			}
 			if strings.HasPrefix(s, "$ghost:") {
 				k := strings.TrimPrefix(s, "$ghost:")
 				if old, ok := st.ghosts[k]; ok {
@@ -500,6 +511,14 @@ func (a *Activation) modCall(cc *ssa.CallCommon, cm map[cellKey]bool, hm map[str
 			// specific locations: derive the heap sorts from the declared types where possible
 			if !a.modSortsOfSpec(callee, spec, hm) {
 				*all = true
+			}
+			return
+		}
+		if gk, explicit := g.eng.specs.ghostFrame(spec); explicit {
+			// any heap location, but a stated ghost effect
+			hm["$heaps"] = true
+			for k := range gk {
+				hm["$ghost:"+k] = true
 			}
 			return
 		}
@@ -799,6 +818,11 @@ func (a *Activation) contractCall(st *State, callee *ssa.Function, spec *FuncSpe
 func (a *Activation) applyContract(st, pre *State, spec *FuncSpec, pkg *packages.Package, calleeName string, vars map[string]SVal, resNames []string, results *types.Tuple, pos token.Pos) Val {
 	g := a.g
 	n := a.ord("call." + calleeName)
+	// identifiers in a contract are resolved in the package whose contract file states it
+	// (for a contract on another package's function that is not the callee's package)
+	if dp := g.eng.byPath[spec.PkgPath]; dp != nil {
+		pkg = dp
+	}
 	mk := func(s *State, where string) *SpecCtx {
 		c := &SpecCtx{g: g, pkg: pkg, st: s, old: pre, vars: map[string]SVal{}, where: a.name + " call " + calleeName + " " + where}
 		for k, v := range vars {
